@@ -15,6 +15,10 @@
 //     the implementation column carries the corruption position `Repair` was called with (captured
 //     from the logger) — that part IS predicted by the Lean model (`readAll` + record decoders).
 //
+//     `case dbo-<wseed>-chunks` (workload seeds >= 9000000, see buildDirected): the same, on a directed database
+//     without blocks whose newest head-chunk file ends with a given sequence of in-order / out-of-order chunks;
+//     sites = truncation at the chunk starts +0..+8 and bit flips inside the first / last chunk.
+//
 //  2. `case wl-<seed>`: T2 on wlog alone (real 32 KiB page, one page per segment): a log of generated
 //     records is written with the real `wlog.WL`, closed, one segment is damaged, every segment is read
 //     the way `Head.Init` does (one `Reader` over one `segmentBufReader` per segment), `WL.Repair` is run
@@ -24,7 +28,9 @@
 // ops:
 //   db <wseed> events=<…> base=<s:t:v,…> full=<s:t:v,…>                      -> -
 //   logs <wseed> wal=<idx:hex;…> wbl=<idx:hex;…> ckpt=<idx:hex;…>            -> -
-//   site <wseed> <class> <seg> <off> <mut> j=… open1=… tree1=… present1=… new=… app=… open2=… present2=…
+//   site <wseed> <class> <seg> <off> <mut> j=… jw=… cb=… cut=… open1=… tree1=… present1=… new=… app=… open2=… present2=…
+//        (cb=1: truncation of a NON-newest head-chunk file at a chunk boundary; cut=: kinds I/O of the chunks a
+//         truncation of a head-chunk file removes)
 //                          -> repair=<none|wal:seg:off|wbl:seg:off> wal=<idx:len:fnv,…> wbl=<…>   (the log dirs after the open)
 //   wopen <pages per segment>            -> ok
 //   wlog <len:seed,…>                    -> ok segs=<n>
@@ -261,6 +267,9 @@ func (w *workload) del(s string, a, b int64) {
 
 // build runs the workload of seed wseed in dir.
 func build(dir string, wseed uint64) ([]event, error) {
+	if wseed >= directedBase {
+		return buildDirected(dir, wseed)
+	}
 	r := h.NewRng(wseed*7919 + 17)
 	w := &workload{dir: dir, maxT: map[string]int64{}, used: map[string]bool{}}
 	names := []string{"a", "b", "c"}
@@ -337,6 +346,157 @@ func build(dir string, wseed uint64) ([]event, error) {
 	}
 	w.close()
 	return w.events, w.err
+}
+
+// ------------------------------------------------------------------ directed workloads: out-of-order chunks at the file tail
+
+// Workload seeds >= directedBase build a database without blocks whose NEWEST head-chunk file ends with a given
+// sequence of m-mapped chunks (I = in-order, O = out-of-order), e.g. "OIO" = … out-of-order, in-order, out-of-order
+// chunk, end of file.  The samples of an out-of-order chunk exist in the WBL (samples records followed by the
+// m-map marker carrying the chunk's (file, offset) reference) and in that chunk; whether a restart keeps them
+// when the chunk did not reach the disk is decided in loadWBL by comparing the marker's reference with the
+// last chunk loaded from chunks_head.  variant = (wseed - directedBase) % directedSlots: pattern index =
+// variant/2 (slots without a pattern: "R"), variant odd = one older head-chunk file precedes the newest one
+// (two sessions); the prefix before the tail, the series and all timestamps come from the workload PRNG.
+// Pattern "R" = random tail of 1-4 chunks with at least one out-of-order chunk.  Corpus files name workload
+// seeds: only ever append to tailPatterns.
+const (
+	directedBase  = 9000000
+	directedSlots = 64
+)
+
+var tailPatterns = []string{"O", "OO", "OOO", "IO", "OIO", "IOO", "OIOO", "IOIO", "OI", "OOI", "OIOI", "R"}
+
+func directedVariant(wseed uint64) (pattern string, twoFiles bool) {
+	v := int((wseed - directedBase) % directedSlots)
+	if v/2 >= len(tailPatterns) {
+		return "R", v%2 == 1
+	}
+	return tailPatterns[v/2], v%2 == 1
+}
+
+type directed struct {
+	w       *workload
+	r       *h.Rng
+	cur     int64          // in-order clock: every in-order commit lies in a new chunk range (1000)
+	oooHead map[string]int // samples in the series' out-of-order head chunk
+	split   bool
+}
+
+// mmapIno makes series s m-map its in-order head chunk: an in-order sample in a new chunk range opens a new head
+// chunk, then the periodic m-mapping pass of DB.run (db.ForceHeadMMap) writes the previous one.
+func (d *directed) mmapIno(s string, exact bool) {
+	d.cur += 1000 + int64(d.r.Intn(3))*1000
+	pts := []smp{{s: s, t: d.cur + int64(d.r.Intn(400))}}
+	if !exact && d.r.Chance(30) {
+		// a companion series moves along (its head chunk is m-mapped too, right before or after)
+		other := h.Pick(d.r, []string{"b", "c"})
+		if other != s {
+			if d.r.Bool() {
+				pts = append(pts, smp{s: other, t: d.cur + 500})
+			} else {
+				pts = append([]smp{{s: other, t: d.cur + 1}}, pts...)
+			}
+		}
+	}
+	d.w.commit(pts)
+	if d.w.err == nil {
+		d.w.db.ForceHeadMMap()
+	}
+}
+
+func (d *directed) oooT() int64 { return 10000 + int64(d.r.Intn(30000)) }
+
+// mmapOoo makes series s m-map its out-of-order head chunk: as many out-of-order samples as fit (cap 4) plus
+// one; in one commit or spread over several.  Afterwards the new out-of-order head chunk holds one sample.
+func (d *directed) mmapOoo(s string) {
+	need := 4 - d.oooHead[s] + 1
+	var pts []smp
+	for i := 0; i < need; i++ {
+		pts = append(pts, smp{s: s, t: d.oooT()})
+	}
+	for len(pts) > 0 {
+		k := len(pts)
+		if d.split && k > 1 {
+			k = 1 + d.r.Intn(k)
+		}
+		d.w.commit(pts[:k])
+		pts = pts[k:]
+	}
+	d.oooHead[s] = 1
+}
+
+func (d *directed) run(pattern string, exact bool) {
+	for _, ch := range pattern {
+		if ch == 'O' {
+			d.mmapOoo(h.Pick(d.r, []string{"a", "a", "c"}))
+		} else {
+			d.mmapIno(h.Pick(d.r, []string{"b", "b", "c"}), exact)
+		}
+	}
+}
+
+func randPattern(r *h.Rng, lo, hi int, needO bool) string {
+	for {
+		n := lo + r.Intn(hi-lo+1)
+		var sb strings.Builder
+		for i := 0; i < n; i++ {
+			sb.WriteByte("IO"[r.Intn(2)])
+		}
+		if !needO || strings.Contains(sb.String(), "O") {
+			return sb.String()
+		}
+	}
+}
+
+func buildDirected(dir string, wseed uint64) ([]event, error) {
+	r := h.NewRng(wseed*104729 + 5)
+	pattern, twoFiles := directedVariant(wseed)
+	if pattern == "R" {
+		pattern = randPattern(r, 1, 4, true)
+	}
+	w := &workload{dir: dir, maxT: map[string]int64{}, used: map[string]bool{}}
+	d := &directed{w: w, r: r, cur: 50000 + int64(r.Intn(500)), oooHead: map[string]int{}, split: r.Chance(60)}
+	w.open()
+	// a (out-of-order only after its first sample), b (in-order only), c (both)
+	w.commit([]smp{{s: "a", t: d.cur}, {s: "b", t: d.cur + 3}, {s: "c", t: d.cur + 5}})
+	if twoFiles {
+		d.run(randPattern(r, 2, 4, true), false)
+		w.close()
+		w.open()
+	}
+	d.run(randPattern(r, 0, 2, false), false)
+	d.run(pattern, true)
+	// sometimes samples behind the last chunk that live in the logs only
+	if r.Chance(40) {
+		w.commit([]smp{{s: "a", t: d.oooT()}})
+		d.oooHead["a"]++
+		if d.oooHead["a"] > 4 {
+			d.oooHead["a"] = 1
+			pattern += "O"
+		}
+	}
+	w.close()
+	if w.err != nil {
+		return nil, w.err
+	}
+	// the newest head-chunk file must end with the pattern
+	files := listFiles(dir)
+	newest := -1
+	for _, f := range files {
+		if f.class == "chunks" && f.seg > newest {
+			newest = f.seg
+		}
+	}
+	fi := findFile(files, "chunks", newest)
+	if fi == nil {
+		return nil, fmt.Errorf("directed %d: no head-chunk file", wseed)
+	}
+	b, _ := os.ReadFile(filepath.Join(dir, fi.path))
+	if l := layoutString(chunkLayout(b)); !strings.HasSuffix(l, pattern) {
+		return nil, fmt.Errorf("directed %d: newest head-chunk file has layout %s, wanted tail %s", wseed, l, pattern)
+	}
+	return w.events, nil
 }
 
 // ------------------------------------------------------------------ dump, tree, copy
@@ -797,8 +957,12 @@ func (dc *dbCase) emit(c *h.Ctx, sites []site) {
 		if st.class == "chunks" && dc.chunkBoundary(st) {
 			cb = 1
 		}
-		c.Op(fmt.Sprintf("site %d %s %d %d %s j=%d jw=%d cb=%d %s", dc.wseed, st.class, st.seg, st.off, st.mut, j, jw, cb, res[i].obs), "repair="+res[i].repair)
+		cut := dc.cutInfo(st)
+		c.Op(fmt.Sprintf("site %d %s %d %d %s j=%d jw=%d cb=%d cut=%s %s", dc.wseed, st.class, st.seg, st.off, st.mut, j, jw, cb, cut, res[i].obs), "repair="+res[i].repair)
 		c.Count("site-" + st.class + "-" + st.mut)
+		if strings.Contains(cut, "O") && strings.Contains(res[i].obs, "open1=ok") {
+			c.Count("site-chunks-trunc-cuts-ooo-chunk")
+		}
 		for _, f := range strings.Fields(res[i].obs) {
 			if strings.HasPrefix(f, "open1=") {
 				c.Count(f)
@@ -856,7 +1020,144 @@ notLast:
 	return false
 }
 
+// chunkEnt is one chunk of a head-chunk file: [start, end) in the file, the series reference, out-of-order flag.
+type chunkEnt struct {
+	start, end int
+	ref        uint64
+	ooo        bool
+}
+
+// chunkLayout walks a head-chunk file (8 byte header; per chunk: series ref 8, mint 8, maxt 8, encoding 1 with
+// the out-of-order bit 0x80, uvarint length, data, crc 4) up to the first zero series reference.
+func chunkLayout(b []byte) []chunkEnt {
+	var out []chunkEnt
+	idx := 8
+	for idx+26 <= len(b) {
+		ref := binary.BigEndian.Uint64(b[idx:])
+		if ref == 0 {
+			break
+		}
+		n, k := binary.Uvarint(b[idx+25:])
+		if k <= 0 {
+			break
+		}
+		end := idx + 25 + k + int(n) + 4
+		if end > len(b) {
+			break
+		}
+		out = append(out, chunkEnt{idx, end, ref, b[idx+24]&0x80 != 0})
+		idx = end
+	}
+	return out
+}
+
+func layoutString(l []chunkEnt) string {
+	var sb strings.Builder
+	for _, e := range l {
+		if e.ooo {
+			sb.WriteByte('O')
+		} else {
+			sb.WriteByte('I')
+		}
+	}
+	if sb.Len() == 0 {
+		return "-"
+	}
+	return sb.String()
+}
+
 var muts = []string{"trunc", "flip0", "flip7", "zero"}
+
+func (dc *dbCase) chunkFiles() []fileInfo {
+	var fs []fileInfo
+	for _, f := range dc.files {
+		if f.class == "chunks" && f.used > 0 {
+			fs = append(fs, f)
+		}
+	}
+	sort.Slice(fs, func(i, j int) bool { return fs[i].seg > fs[j].seg })
+	return fs
+}
+
+func (dc *dbCase) layoutOf(f fileInfo) []chunkEnt {
+	b, err := os.ReadFile(filepath.Join(dc.master, f.path))
+	if err != nil {
+		return nil
+	}
+	return chunkLayout(b)
+}
+
+// boundarySites: truncations of head-chunk file f at the start of each of its last `last` chunks (all if
+// last <= 0) and 1..maxExtra bytes past it: +1..+7 lie inside the big-endian series reference of the next chunk
+// (leading bytes zero: the file reads as complete), +8 leaves a whole reference without the rest of the chunk.
+func (dc *dbCase) boundarySites(f fileInfo, last, maxExtra int) []site {
+	l := dc.layoutOf(f)
+	if last > 0 && len(l) > last {
+		l = l[len(l)-last:]
+	}
+	var out []site
+	for _, e := range l {
+		for x := 0; x <= maxExtra; x++ {
+			out = append(out, site{"chunks", f.seg, e.start + x, "trunc"})
+		}
+	}
+	return out
+}
+
+// cutInfo: for a truncation of a head-chunk file, the kinds (I/O) of the chunks that are no longer complete.
+func (dc *dbCase) cutInfo(st site) string {
+	if st.class != "chunks" || st.mut != "trunc" {
+		return "-"
+	}
+	fi := findFile(dc.files, "chunks", st.seg)
+	if fi == nil {
+		return "-"
+	}
+	var cut []chunkEnt
+	for _, e := range dc.layoutOf(*fi) {
+		if e.end > st.off {
+			cut = append(cut, e)
+		}
+	}
+	return layoutString(cut)
+}
+
+// directedSites: the damage sites of a directed database (see buildDirected).
+func (dc *dbCase) directedSites(thorough bool) []site {
+	fs := dc.chunkFiles()
+	var sites []site
+	for i, f := range fs {
+		l := dc.layoutOf(f)
+		if len(l) == 0 {
+			continue
+		}
+		switch {
+		case i == 0 && thorough:
+			sites = append(sites, dc.boundarySites(f, 0, 8)...)
+		case i == 0:
+			sites = append(sites, dc.boundarySites(f, 3, 8)...)
+		case thorough:
+			sites = append(sites, dc.boundarySites(f, 0, 8)...)
+		default:
+			sites = append(sites, dc.boundarySites(f, 2, 1)...)
+		}
+		// detected damage (the file and everything behind it is dropped as a whole): first and last chunk
+		sites = append(sites, site{"chunks", f.seg, l[0].start + 27, "flip0"})
+		if i == 0 || thorough {
+			sites = append(sites, site{"chunks", f.seg, l[len(l)-1].start + 27, "flip7"}, site{"chunks", f.seg, l[len(l)-1].start + 8, "trunc"})
+		}
+	}
+	// no site twice
+	seen := map[site]bool{}
+	var out []site
+	for _, st := range sites {
+		if !seen[st] {
+			seen[st] = true
+			out = append(out, st)
+		}
+	}
+	return out
+}
 
 // genSites: newest and an older WAL segment, WBL segments, checkpoint, newest head-chunk file.
 func (dc *dbCase) genSites(r *h.Rng, stride int) []site {
@@ -1370,6 +1671,14 @@ func main() {
 		fmt.Fprintln(os.Stderr, "build:", err, len(evs), "events; ckpt", ckptIndex(d))
 		for _, f := range listFiles(d) {
 			fmt.Fprintf(os.Stderr, "%+v\n", f)
+			if f.class == "chunks" {
+				b, _ := os.ReadFile(filepath.Join(d, f.path))
+				l := chunkLayout(b)
+				fmt.Fprintf(os.Stderr, "  layout %s\n", layoutString(l))
+				for _, e := range l {
+					fmt.Fprintf(os.Stderr, "   [%d,%d) ref=%d ooo=%v\n", e.start, e.end, e.ref, e.ooo)
+				}
+			}
 		}
 		return
 	}
@@ -1394,6 +1703,21 @@ func main() {
 			continue
 		}
 		sites := dc.genSites(c.Rng.Fork(), stride)
+		if stride > 1 {
+			// the sampled offsets rarely hit them: every truncation at / just behind the last two chunk boundaries
+			// of the newest head-chunk file (thorough sweeps every offset of that file anyway)
+			if fs := dc.chunkFiles(); len(fs) > 0 {
+				have := map[site]bool{}
+				for _, st := range sites {
+					have[st] = true
+				}
+				for _, st := range dc.boundarySites(fs[0], 2, 8) {
+					if !have[st] {
+						sites = append(sites, st)
+					}
+				}
+			}
+		}
 		for _, cl := range []string{"wal", "wbl", "ckpt", "chunks"} {
 			var sel []site
 			for _, st := range sites {
@@ -1408,6 +1732,37 @@ func main() {
 			dc.describe(c)
 			dc.emit(c, sel)
 		}
+		os.RemoveAll(dc.master)
+	}
+	// directed databases: out-of-order chunks at the tail of the newest head-chunk file (quick: 4 of the
+	// variants, rotating with the seed; thorough: every pattern with one and with two files + 4 random tails)
+	var dseeds []uint64
+	if c.Tier == "thorough" {
+		for v := uint64(0); v < uint64(2*len(tailPatterns)+4); v++ {
+			dseeds = append(dseeds, directedBase+directedSlots*c.Seed+v)
+		}
+	} else {
+		for i := uint64(0); i < 4; i++ {
+			pi := (c.Seed*4 + i) % uint64(len(tailPatterns))
+			dseeds = append(dseeds, directedBase+directedSlots*c.Seed+2*pi+(i+c.Seed)%2)
+		}
+	}
+	if v, ok := c.Extra["ndirected"]; ok {
+		k, _ := strconv.Atoi(v)
+		if k < len(dseeds) {
+			dseeds = dseeds[:k]
+		}
+	}
+	for _, wseed := range dseeds {
+		dc, ok := prepareQuiet(c, wseed, false)
+		if !ok {
+			c.Case(fmt.Sprintf("dbo-%d", wseed))
+			c.Op(fmt.Sprintf("db %d build-failed", wseed), "err")
+			continue
+		}
+		c.Case(fmt.Sprintf("dbo-%d-chunks", wseed))
+		dc.describe(c)
+		dc.emit(c, dc.directedSites(c.Tier == "thorough"))
 		os.RemoveAll(dc.master)
 	}
 	r := c.Rng.Fork()
